@@ -154,6 +154,7 @@ class Config:
         self.tight_operators = True
         self.transactions = True
         self.placeholders = True
+        self.returning = True
         for k, v in kw.items():
             if not hasattr(self, k):
                 raise TypeError(k)
@@ -754,6 +755,23 @@ class Gen:
         else:
             self.select_core(max(depth - 1, 0), top=True)
 
+    def returning(self):
+        """[RETURNING cols | t.*] behind INSERT/UPDATE/DELETE."""
+        rng = self.rng
+        if not self.cfg.returning or rng.random() > 0.2:
+            return
+        self.kw('RETURNING')
+        if rng.random() < 0.4:
+            self.name_token('req', allow_quoted=False)
+            self.punct('.', 'none')
+            self.emit('star', '*', 'none')
+        else:
+            for k in range(rng.choice([1, 1, 2])):
+                if k:
+                    self.punct(',', 'opt')
+                self.colref(self.g())
+        self.s.features.add('returning')
+
     def update_stmt(self, depth):
         rng = self.rng
         self.kw('UPDATE', 'opt')
@@ -773,6 +791,7 @@ class Gen:
             _, l = self.cond(min(depth, 1))
             self.s.wheres.append((w, l))
             self.s.features.add('where')
+        self.returning()
 
     def delete_stmt(self, depth):
         rng = self.rng
@@ -787,6 +806,7 @@ class Gen:
             _, l = self.cond(min(depth, 1))
             self.s.wheres.append((w, l))
             self.s.features.add('where')
+        self.returning()
 
     def transaction_stmt(self, depth):
         rng = self.rng
@@ -1014,7 +1034,12 @@ class Layout:
     def one_ws(self):
         if self.ws == 'single':
             return ' '
-        return self.rng.choice(WS_CHOICES)
+        w = self.rng.choice(WS_CHOICES)
+        if self.rng.random() < 0.12:
+            # a longer run (indentation, blank lines)
+            w += ''.join(self.rng.choice([' ', ' ', '  ', '\t', '\n', '    '])
+                         for _ in range(self.rng.randint(1, 4)))
+        return w
 
     def _comment(self):
         rng = self.rng
